@@ -252,11 +252,62 @@ def parse_error_worker(args):
     return hutil.export(chk)
 
 
+DECL_TEXT = {'struct': 'struct %s { int a; };', 'union': 'union %s { int a; };', 'typedef': 'typedef int %s;',
+             'enum': 'enum %s { C30_A };', 'function': 'int %s(int);', 'variable': 'extern int %s;',
+             'constant': 'static const int %s;', 'macro': '#define %s 1\n'}
+
+
+def declare_worker(args):
+    """Parser._declare (every declaration of a cdef ends here) on a declared identifier of n arbitrary identifier
+    characters: only cffi errors may escape"""
+    prop, tier, kind, n = args
+    sys.path.insert(0, os.path.join(common.REPO, 'src'))
+    chk = hutil.sub_check(prop, tier)
+    from cffi import cparser, model
+    ex = pysym.PyExplorer()
+    label = 'declare:%s:name-length-%d' % (kind, n)
+    IDENT = [c for c in range(128) if chr(c).isalnum() or chr(c) == '_']
+
+    def h(ex):
+        parser = cparser.Parser()
+        name = symstr.SymStr.fresh(ex, 'name', n)
+        for c in name.chars:
+            ex.add_definition(z3.Or(*[c == v for v in IDENT]))
+        ex.add_definition(z3.Not(z3.And(name.chars[0] >= 48, name.chars[0] <= 57)))
+        key = symstr.SymStr(ex, [ord(ch) for ch in kind + ' '] + list(name.chars))
+
+        class Decls(dict):
+            def __contains__(self, k):
+                return False
+        parser._declarations = Decls()
+        parser._declarations.__class__.__setitem__ = lambda self, k, v: None
+        try:
+            parser._declare(key, model.PrimitiveType('int'))
+            outcome = 'declared'
+        except (llsym.PathEnd, llsym.UnwindBound, llsym.Unsupported):
+            raise
+        except Exception as e:
+            outcome = classify_exc(e)
+        m = hutil.witness(chk, ex, '%s:%s' % (label, outcome))
+        if outcome == 'declared' or outcome in ALLOWED:
+            chk.query('%s:path-outcome-%s' % (label, outcome), 'unsat', 0.0)
+            return
+        text = ''.join(chr(hutil.mval(m, c)) for c in name.chars)
+        src = DECL_TEXT[kind] % text
+        chk.query('%s:only-cffi-errors' % label, 'sat', 0.0, detail=src)
+        ok, script = py_replay(chk, 'declare-%s' % outcome, src)
+        chk.report_failure('%s: %r raises %s' % (label, src, outcome), {}, script, ok)
+
+    res = ex.explore(h, max_paths=5000)
+    hutil.finish_explore(chk, ex, res, label)
+    return hutil.export(chk)
+
+
 def dispatch(args):
     kind = args[2]
     rest = args[:2] + args[3:]
     return {'macro': macro_worker, 'const': const_worker, 'ctext': constant_text_worker,
-            'perr': parse_error_worker, 'c': c_worker, 'cstr': c_worker}[kind](rest)
+            'perr': parse_error_worker, 'c': c_worker, 'cstr': c_worker, 'decl': declare_worker}[kind](rest)
 
 
 def c_worker(args):
@@ -280,6 +331,7 @@ def run(chk):
     cases += [P + ('const', op) for op in ['+', '-', '*', '/', '%', '<<', '>>', '&', '|', '^']]
     cases += [P + ('ctext', n) for n in range(1, (4 if quick else 5) + 1)]
     cases += [P + ('perr', k) for k in range(0, 4 if quick else 7)]
+    cases += [P + ('decl', k, n) for k in sorted(DECL_TEXT) for n in ((1, 5, 13) if quick else (1, 2, 3, 5, 8, 12, 13, 14))]
     cc = c_cases(chk)
     cases += cc
     chk.bounds = {'#define value text': 'every ASCII string without newline, length <= %d' % N,
@@ -287,6 +339,7 @@ def run(chk):
                   'C parser (typeof on a compiled FFI)': 'every byte string of length <= %d (any bytes), output arrays of 1..8 opcodes, empty declaration context; '
                                                          'str arguments of up to %d arbitrary BMP code points through _ffi_type' % (4 if quick else 5, 2 if quick else 3),
                   'Constant.value text': 'every ASCII string of length <= %d that pycparser can lex as a constant token' % (4 if quick else 5),
+                  'declared identifiers': 'Parser._declare for every declaration kind and every identifier of the listed lengths (up to 13/14 characters)',
                   'parse-error conversion': 'any reported line number >= 0, sources of 0..%d lines' % (3 if quick else 6)}
     chk.outside = ['errors raised inside pycparser for texts it cannot lex/parse (converted by convert_pycparser_error, '
                    'whose own arithmetic is covered)', 'non-ASCII text', 'texts longer than the bounds',
